@@ -176,7 +176,7 @@ def run (op : String) (a : Json) : Option (Except String Json) :=
   | "ns.clean" => some do
       let m ← asNsMap (a.getObjValD "ns_map")
       pure <| ok (jNsMap (serializerNsMap m))
-  | "ns.split_qname" => some do
+  | "xml.split_qname" => some do
       let q ← getStr a "q"
       pure <| match splitQName q with
         | .ok (u, l) => ok (Json.arr #[jOpt jStr u, jStr l])
